@@ -27,6 +27,11 @@ def configs(tier):
 
 
 def run(tier, workers=None):
+    def seeds(cfg):
+        # start from non-initial states too: a second collection with a member, and one that was deleted again
+        return [[("mkcalendar", "c2"), ("put", "c2", "a.ics", "X")], [("mkcalendar", "c2"), ("put", "c2", "a.ics", "X"), ("delcoll", "c2")],
+                [("put", "cal", "a.ics", "X"), ("put", "cal", "a.ics", "X2")]]
+
     def depth_of(cfg):
         return (2, None) if tier == "quick" else (4, 3000)
 
@@ -34,4 +39,4 @@ def run(tier, workers=None):
         n = e1common.cross_history_tags(rep, "C08", obs)
         return {"distinct_tags_observed": n}
 
-    return e1common.run_configs("C08", tier, configs(tier), depth_of, workers=workers, assumptions=ASSUME, post=post)
+    return e1common.run_configs("C08", tier, configs(tier), depth_of, workers=workers, seeds=seeds, assumptions=ASSUME, post=post)
